@@ -647,6 +647,9 @@ func (s *Session) CheckObs(o *Obs) error {
 		if err := s.checkRelated(o); err != nil {
 			return err
 		}
+		if err := s.checkRelatedMulti(o); err != nil {
+			return err
+		}
 	}
 	if s.H.HasKind("cat") {
 		if err := s.checkCatalogue(o); err != nil {
@@ -855,6 +858,21 @@ func (s *Session) checkChanges(o *Obs) error {
 							s.diverge("changes-js-walk", map[string]any{"ds": n, "limit": lim, "latestOnly": true}, full, got, "")
 						}
 					}
+					// JSON-LD output of the same feed (Accept: application/ld+json): the sequence of ids
+					{
+						ids, err := s.httpChangesWalkLD(real, lim, lo, len(full)+3)
+						if err != nil {
+							return err
+						}
+						var expIDs []string
+						for _, e := range full {
+							expIDs = append(expIDs, e.ID)
+						}
+						s.Checks++
+						if strings.Join(ids, ",") != strings.Join(expIDs, ",") {
+							s.diverge("changes-jsonld-walk", map[string]any{"ds": n, "limit": lim, "latestOnly": lo}, expIDs, ids, "")
+						}
+					}
 					for _, reverse := range []bool{false, true} {
 						if reverse && lo {
 							continue // the handler's newest-first branch has no latest-only form
@@ -1018,7 +1036,11 @@ func (s *Session) httpLookup(uri string, scope []string) (*server.Entity, error)
 
 // httpRelated pages through POST /query with the handler's base64 continuations.
 func (s *Session) httpRelated(start, pred string, inv bool, scope []string, limit int) ([]RelOut, error) {
-	body := map[string]any{"startingEntities": []string{start}, "predicate": pred, "inverse": inv}
+	return s.httpRelatedMany([]string{start}, pred, inv, scope, limit)
+}
+
+func (s *Session) httpRelatedMany(starts []string, pred string, inv bool, scope []string, limit int) ([]RelOut, error) {
+	body := map[string]any{"startingEntities": starts, "predicate": pred, "inverse": inv}
 	if len(scope) > 0 {
 		body["datasets"] = scope
 	}
@@ -1064,6 +1086,57 @@ func (s *Session) httpRelated(start, pred string, inv bool, scope []string, limi
 // tokens, until a page brings no entity (forward) or no token (reverse).
 func (s *Session) httpChangesWalk(real string, lim int, lo, reverse bool, maxPages int) ([]CEntity, error) {
 	return s.httpWalk("/datasets/"+real+"/changes", "since", lim, lo, reverse, maxPages)
+}
+
+// httpChangesWalkLD reads the change feed as JSON-LD and returns the @id of every entity in order.
+func (s *Session) httpChangesWalkLD(real string, lim int, lo bool, maxPages int) ([]string, error) {
+	h, err := s.W.Web()
+	if err != nil {
+		return nil, err
+	}
+	var ids []string
+	tok := ""
+	for i := 0; i < maxPages+1; i++ {
+		q := url.Values{}
+		if lim > 0 {
+			q.Set("limit", strconv.Itoa(lim))
+		}
+		if lo {
+			q.Set("latestOnly", "true")
+		}
+		if tok != "" {
+			q.Set("since", tok)
+		}
+		req := httptest.NewRequest(http.MethodGet, "/datasets/"+real+"/changes?"+q.Encode(), nil)
+		req.Header.Set("Accept", "application/ld+json")
+		rec := httptest.NewRecorder()
+		h.ServeHTTP(rec, req)
+		if rec.Code != 200 {
+			return nil, fmt.Errorf("GET changes (json-ld): %d %s", rec.Code, rec.Body.String())
+		}
+		var elems []map[string]json.RawMessage
+		if err := json.Unmarshal(rec.Body.Bytes(), &elems); err != nil {
+			return nil, fmt.Errorf("GET changes (json-ld): %w (%s)", err, rec.Body.String())
+		}
+		n, next := 0, ""
+		for _, el := range elems {
+			if raw, ok := el["core:token"]; ok {
+				_ = json.Unmarshal(raw, &next)
+				continue
+			}
+			if raw, ok := el["@id"]; ok {
+				var id string
+				_ = json.Unmarshal(raw, &id)
+				ids = append(ids, id)
+				n++
+			}
+		}
+		if n == 0 || next == "" || lim == 0 {
+			break
+		}
+		tok = next
+	}
+	return ids, nil
 }
 
 // httpWalk pages through GET <path> (changes: token parameter "since"; entities: "from").
@@ -1382,6 +1455,73 @@ func (s *Session) checkRelated(o *Obs) error {
 							}
 						}
 					}
+				}
+			}
+		}
+	}
+	return nil
+}
+
+// checkRelatedMulti asks for the relations of ALL entities in one query (several starting points, several
+// continuations per page) through the Go API and POST /query: the answer is the union of the single answers.
+func (s *Session) checkRelatedMulti(o *Obs) error {
+	if s.Ad.Name() != "go" || len(s.H.Ent) < 2 {
+		return nil
+	}
+	tab := map[relKey][]Pair{}
+	for _, r := range o.Rel {
+		tab[relKey{r.S, r.P, r.Inv, scopeKey(r.Sc), r.T}] = r.Pairs
+	}
+	var starts []string
+	for _, e := range s.H.Ent {
+		starts = append(starts, s.EntURI(e))
+	}
+	for _, inv := range []bool{false, true} {
+		for _, sc := range Subsets(s.H.Ds) {
+			if !s.scopeLive(o, sc) {
+				continue
+			}
+			var exp []string
+			for _, e := range s.H.Ent {
+				for _, x := range pairSet(tab[relKey{e, "*", inv, scopeKey(sc), o.Clock}]) {
+					exp = append(exp, e+":"+x)
+				}
+			}
+			sort.Strings(exp)
+			type run struct {
+				how   string
+				limit int
+				http  bool
+			}
+			runs := []run{{"many,now", 0, false}}
+			for _, l := range s.H.Limits {
+				if l > 0 {
+					runs = append(runs, run{fmt.Sprintf("many,now,limit=%d", l), l, false})
+					if s.httpQueries() {
+						runs = append(runs, run{fmt.Sprintf("many,POST /query,limit=%d", l), l, true})
+					}
+				}
+			}
+			for _, r := range runs {
+				var rels []RelOut
+				var err error
+				if r.http {
+					rels, err = s.httpRelatedMany(starts, "*", inv, s.scopeReal(sc), r.limit)
+				} else {
+					rels, err = s.Ad.Related(s, starts, "*", inv, s.scopeReal(sc), r.limit, 0)
+				}
+				if err != nil {
+					return err
+				}
+				var got []string
+				for _, x := range rels {
+					got = append(got, s.entAbstract(x.Start)+":"+s.predAbstract(x.Pred)+">"+s.entAbstract(x.Other.ID))
+				}
+				sort.Strings(got)
+				s.Checks++
+				if strings.Join(got, ",") != strings.Join(exp, ",") {
+					q := map[string]any{"start": s.H.Ent, "pred": "*", "inverse": inv, "scope": sc, "t": o.Clock}
+					s.diverge("related", q, exp, got, r.how)
 				}
 			}
 		}
